@@ -38,7 +38,9 @@ Inductive track_inv (m : mon) (pf : bool) (s : st) : Prop :=
     (5 <= m_t m - m_last m -> 8 - (m_t m - m_last m) <= w_of s <= 10 - (m_t m - m_last m) /\ (w_of s = 5 -> pf = true)) ->
     track_inv m pf s.
 
-Definition safe (s : st) : Prop := ds s <> UNLOCKED /\ 0 <= missing s <= 1 /\ dcd_ s = true.
+Definition safe (s : st) : Prop :=
+  ds s <> UNLOCKED /\ 0 <= missing s <= 1 /\ dcd_ s = true /\
+  (ds s = STREAM_SYNC -> sync_count s = 0 -> boundary s = true).
 
 Lemma far_iff si cp : 0 <= si < 10 -> (Z.abs (si - cp mod 10) =? 5) = ((si - cp) mod 10 =? 5).
 Proof. intros. lia. Qed.
@@ -64,6 +66,15 @@ Proof.
   - constructor; try lia. destruct (dcd_ s); [reflexivity|discriminate]. destruct (dcd_trig s); [reflexivity|discriminate].
     destruct (ncr s); [discriminate|reflexivity].
   - apply TI_sync; cbn [mon0 m_t m_n]; try lia. exact Eds.
+Qed.
+
+(** every frame boundary reached along such a run is again a [boundary] state: the theorem re-applies period after period *)
+Lemma track_inv_boundary m pf s : track_common s -> track_inv m pf s -> ds s = STREAM_SYNC -> sync_count s = 0 -> boundary s = true.
+Proof.
+  intros [Ci Cd Ct Cn Csi Ccp Cm] I Eds Hsc. unfold boundary. rewrite Ci, Cd, Ct, Cn, Eds, Hsc. unfold_consts.
+  destruct I as [_ ? Hf ? ? Hc|E|E|E]; try congruence.
+  rewrite Hf. rewrite Hsc in Hc. cbn [Z.eqb negb andb].
+  repeat (apply andb_true_intro; split); lia.
 Qed.
 
 Theorem track_step : forall (m : mon) (pf : bool) (s : st) (o : obs),
@@ -206,11 +217,13 @@ Proof.
   destruct Q as [Q_init Q_eot Q_ds Q_swt Q_si Q_dcd Q_trig Q_ncr Q_ncu Q_sc Q_miss Q_ssi Q_cpos Q_cprev Q_fidx Q_cost Q_dec Q_count].
   exists m'. split.
   { rewrite app_assoc. unfold mon_step in Dm |- *. rewrite has_sym_quiet_r, decodes_quiet_r by exact Qq. exact Dm. }
-  split.
+  assert (C1 : track_common s5).
   { constructor; try congruence; try lia. all: rewrite Q_cpos, D_cpos, P_cpos; lia. }
-  split.
+  assert (I1 : track_inv m' (far_next s) s5).
   { apply D_inv; assumption. }
-  { unfold safe. rewrite Q_ds, Q_miss, Q_dcd. repeat split; try assumption; lia. }
+  split; [exact C1|]. split; [exact I1|].
+  unfold safe. rewrite Q_ds, Q_miss, Q_dcd. repeat split; try assumption; try lia.
+  intros E1 E2. apply (track_inv_boundary m' (far_next s) s5 C1 I1); [rewrite Q_ds; exact E1|exact E2].
 Qed.
 
 Lemma track_inv_bounded m pf s : track_inv m pf s -> mon_bounded m.
@@ -236,19 +249,23 @@ Qed.
 Theorem tracking_lemma : forall (s : st) (os : list obs),
   boundary s = true -> track_good_run false s os ->
   (exists m', mon_run mon0 (events s os) = Some m' /\ mon_bounded m') /\
-  Forall (fun s' => ds s' <> UNLOCKED /\ 0 <= missing s' <= 1 /\ dcd_ s' = true) (states s os).
+  Forall (fun s' => ds s' <> UNLOCKED /\ 0 <= missing s' <= 1 /\ dcd_ s' = true /\
+                    (ds s' = STREAM_SYNC -> sync_count s' = 0 -> boundary s' = true)) (states s os).
 Proof.
   intros s os B G. destruct (boundary_inv s B) as [C I].
   exact (tracking_from_inv os mon0 false s C I G).
 Qed.
 
-(** every frame boundary reached along such a run is again a [boundary] state: the theorem re-applies period after period *)
-Lemma track_inv_boundary m pf s : track_common s -> track_inv m pf s -> ds s = STREAM_SYNC -> sync_count s = 0 -> boundary s = true.
+(** the hypotheses as a boolean function, for the satisfiability examples *)
+Fixpoint track_good_runb (pf : bool) (s : st) (os : list obs) : bool :=
+  match os with
+  | [] => true
+  | o :: os' => track_good pf s o && track_good_runb (far_next s) (fst (step s o)) os'
+  end.
+Lemma track_good_runb_ok : forall os pf s, track_good_runb pf s os = true -> track_good_run pf s os.
 Proof.
-  intros [Ci Cd Ct Cn Csi Ccp Cm] I Eds Hsc. unfold boundary. rewrite Ci, Cd, Ct, Cn, Eds, Hsc. unfold_consts.
-  destruct I as [_ ? Hf ? ? Hc|E|E|E]; try congruence.
-  rewrite Hf. rewrite Hsc in Hc. cbn [Z.eqb negb andb].
-  repeat (apply andb_true_intro; split); lia.
+  induction os as [|o os IH]; intros pf s H; cbn [track_good_runb track_good_run] in *; [exact I|].
+  apply andb_prop in H. destruct H as [H1 H2]. split; [exact H1|apply IH; exact H2].
 Qed.
 
 (** ** the EOT path *)
